@@ -90,6 +90,23 @@ def preflush_domain(spec, pre):
         return
     from . import refsim
 
+    if len(spec.get("pop_types") or []) > 1:
+        # junctions only exist in the first population type of generated specs: evaluate the flush on that part alone
+        import copy
+
+        t0 = spec["pop_types"][0]
+        sub = copy.deepcopy(spec)
+        sub["pop_types"] = None
+        drop_c = {c["name"] for c in spec["comps"] if c.get("type", t0) != t0}
+        drop_p = {p_["name"] for p_ in spec["pars"] if p_.get("type", t0) != t0}
+        sub["comps"] = [c for c in sub["comps"] if c["name"] not in drop_c]
+        sub["pars"] = [p_ for p_ in sub["pars"] if p_["name"] not in drop_p]
+        sub["characs"] = [x for x in sub.get("characs", []) if x.get("type", t0) == t0]
+        sub["links"] = [l for l in sub["links"] if l[0] not in drop_c and l[1] not in drop_c]
+        sub["pops"] = [q for q in sub["pops"] if isinstance(q, str) or q.get("type", t0) == t0]
+        sub["pops"] = [q if isinstance(q, str) else q["name"] for q in sub["pops"]]
+        sub["inter"] = [w for w in sub.get("inter", []) if w.get("from", t0) == t0 and w.get("to", t0) == t0]
+        spec = sub
     try:
         sim = refsim.RefSim(spec, initial_only=True)
         state0 = sim.initial_state()
